@@ -8,7 +8,7 @@ import copy
 import json
 import random
 
-from typedpy import Deserializer, Serializer, serialize
+from typedpy import Deserializer, Serializer, serialize, deserialize_structure, serialize_field
 from typedpy.structures import TypedPyDefaults
 
 from .. import dump, gen
@@ -119,6 +119,23 @@ def lossy_only(d):
             return False
         return all(lossy_only(fd) for _, fd in d["fields"])
     return in_fragment(d)
+
+
+def nonstring_map_keys(d, acc=None):
+    """kinds of Map key fields whose serialized keys are not strings (json.dumps turns them into strings)"""
+    acc = set() if acc is None else acc
+    if isinstance(d, dict):
+        if d.get("k") == "mapOf":
+            kk = d["key"]["k"]
+            if kk in ("integer", "float", "number", "boolean", "noneF", "anyOf") or \
+                    (kk == "enumLit" and not all(isinstance(v, str) for v in d["key"]["values"])):
+                acc.add(kk)
+        for x in d.values():
+            nonstring_map_keys(x, acc)
+    elif isinstance(d, list):
+        for x in d:
+            nonstring_map_keys(x, acc)
+    return acc
 
 
 def has_extras(kw, cls):
@@ -417,7 +434,9 @@ def run_impl(case):
     try:
         addl = bool(decl.get("addl", True))
         ku = opts.get("keepUndefined", True)
-        res["opts_actual"] = {"keepUndefined": bool(ku if (ku is not None or addl) else True),
+        # the wrapper's adjustment of keep_undefined=None: kept as it is (falsy) for an open class; for a closed class
+        # it is `not ignore_invalid_additional_properties_in_deserialization` (since /repo 005d815; before: True)
+        res["opts_actual"] = {"keepUndefined": bool(ku if (ku is not None or addl) else not opts.get("ignoreInvalidAddl", True)),
                               "ignoreInvalidAddl": opts.get("ignoreInvalidAddl", True)}
         if case["mode"] == "roundtrip":
             try:
@@ -440,6 +459,21 @@ def run_impl(case):
                     res["ser_fn_same"] = serialize(x) == doc
                 except Exception:
                     res["ser_fn_same"] = False
+                # the public field-level API: serialize_field(Class.field, value) is that field's part of the document
+                try:
+                    diffs = []
+                    for fname in cls.get_all_fields_by_name():
+                        fv = getattr(x, fname, None)
+                        if fv is None or fname not in doc:
+                            continue
+                        part = serialize_field(getattr(cls, fname), fv)
+                        fdecl = dict((n, f) for n, f in decl["fields"]).get(fname)
+                        # (arrays that came from a set are compared as sets: the getter may hand out a copy that iterates differently)
+                        if dump.canon(canon_doc(fdecl, dump.dump_value(part, ctx))) != dump.canon(canon_doc(fdecl, dump.dump_value(doc[fname], ctx))):
+                            diffs.append(fname)
+                    res["ser_field_diffs"] = diffs
+                except Exception as e:
+                    res["ser_field_diffs"] = f"{type(e).__name__}: {e}"[:200]
                 # the alias probe pokes the returned document: on a separate, fresh instance, so that a live
                 # document cannot corrupt the instance the round trip below starts from
                 try:
@@ -452,6 +486,16 @@ def run_impl(case):
             except Exception as e:
                 res["ser"] = {"err": C.err_name(e), "msg": str(e)[:200]}
                 return res
+            # the same through JSON TEXT (what a consumer on the other side of a wire sees)
+            try:
+                text = json.dumps(Serializer(x).serialize())
+                try:
+                    yt = Deserializer(cls).deserialize(json.loads(text), keep_undefined=ku)
+                    res["text_back"] = {"ok": bool(x == yt)}
+                except Exception as e:
+                    res["text_back"] = {"err": C.err_name(e), "msg": str(e)[:200]}
+            except Exception:
+                pass
             try:
                 doc2 = Serializer(x).serialize()
                 y = Deserializer(cls).deserialize(doc2, keep_undefined=ku)
@@ -486,6 +530,12 @@ def run_impl(case):
                 res["deser"] = {"ok": C.rename_inline(dump.dump_value(y, ctx), ctx)}
             except Exception as e:
                 res["deser"] = {"err": C.err_name(e), "msg": str(e)[:200]}
+            # the function API with the flag the wrapper computes: same verdict, equal instance
+            try:
+                y2 = deserialize_structure(cls, copy.deepcopy(doc), keep_undefined=res["opts_actual"]["keepUndefined"] if ku is None else ku)
+                res["deser_fn"] = {"ok": C.rename_inline(dump.dump_value(y2, ctx), ctx)}
+            except Exception as e:
+                res["deser_fn"] = {"err": C.err_name(e), "msg": str(e)[:200]}
             res["doc_unchanged"] = before == json.dumps(dump.dump_value(doc, ctx), sort_keys=True)
     finally:
         TypedPyDefaults.ignore_invalid_additional_properties_in_deserialization = old
@@ -541,7 +591,7 @@ def tags(case, impl, model):
     out.append("fragment:" + str(in_fragment(case["cls"])))
     m = (model or {}).get("out") or {}
     if "inFrag" in m:
-        out.append("proved-fragment(class_round_trip_partial | class_round_trip_extras_partial):" + str(bool(m["inFrag"] or m.get("inFragExtras"))))
+        out.append("proved-fragment(class_round_trip_partial | _extras_partial | _none_attrs_partial):" + str(bool(m["inFrag"] or m.get("inFragExtras") or m.get("inFragNone"))))
     if "exactDecl" in m:
         out.append("proved-fragment(deserialize_exact_partial):" + str(m["exactDecl"]))
     out.append("model-scope:" + str(in_model_scope(case["cls"])))
@@ -661,18 +711,33 @@ def offpath_inline(d, on_path=True):
     return False
 
 
+def _eq_and_typed_keys(x):
+    """(key under Python ==, key that also tells the JSON types apart) of a wire document value"""
+    if x is None or isinstance(x, str):
+        return ("v", x), ("v", x)
+    if isinstance(x, bool):
+        return ("n", gen.norm_key(x)), ("bool", x)
+    if isinstance(x, int):
+        return ("n", gen.norm_key(x)), ("int", x)
+    if gen.is_wire_float(x):
+        return ("n", gen.norm_key(x)), ("float", json.dumps(x, sort_keys=True))
+    if isinstance(x, dict) and "l" in x:
+        ks = [_eq_and_typed_keys(y) for y in x["l"]]
+        return ("l", tuple(k[0] for k in ks)), ("l", tuple(k[1] for k in ks))
+    return ("o", json.dumps(x, sort_keys=True)), ("o", json.dumps(x, sort_keys=True))
+
+
 def crosstype_duplicates(doc):
-    """an array holding values that are == but of different JSON type (true / 1 / 1.0): as a Python set
-    they collapse before the constructor can see them, so 'the set this array denotes' is ambiguous"""
+    """an array holding values that are == but of different JSON type (true / 1 / 1.0, also inside nested arrays:
+    [3, 0] / [3, false]): as a Python set they collapse before the constructor can see them, so 'the set this
+    array denotes' is ambiguous"""
     if isinstance(doc, dict):
         if "l" in doc:
             keys = {}
             for x in doc["l"]:
-                if x is None or isinstance(x, (bool, int)) or gen.is_wire_float(x):
-                    k = gen.norm_key(x)
-                    t = "bool" if isinstance(x, bool) else "int" if isinstance(x, int) else "float"
-                    if keys.setdefault(k, t) != t:
-                        return True
+                ek, tk = _eq_and_typed_keys(x)
+                if keys.setdefault(ek, tk) != tk:
+                    return True
             return any(crosstype_duplicates(x) for x in doc["l"])
         if "m" in doc:
             return any(crosstype_duplicates(v) for _, v in doc["m"])
